@@ -95,6 +95,9 @@ func zeroExpr(t string) string {
 	case t == "int":
 		return "1"
 	}
+	if t == "context.Context" {
+		return "context.Background()"
+	}
 	if strings.HasPrefix(t, "I") || strings.HasPrefix(t, "func(") || strings.Contains(t, "chan ") {
 		return "nil"
 	}
